@@ -3,13 +3,18 @@
 # kind: rapid (default) | exhaustive | plain
 # quick/thorough: checks = total rapid cases over all shards; shards = processes; timeout = seconds per shard
 PARTS = {
+    "C10": [
+        {"test": "TestVfC10Score",
+         "quick": {"checks": 60000, "shards": 4, "timeout": 600},
+         "thorough": {"checks": 1600000, "shards": 16, "timeout": 2400}},
+    ],
     "C15": [
         {"test": "TestVfC15Seq", "kind": "exhaustive",
          "quick": {"shards": 4, "timeout": 300, "params": {"maxlen": 7}},
          "thorough": {"shards": 16, "timeout": 1500, "params": {"maxlen": 9}}},
         {"test": "TestVfC15Conc",
-         "quick": {"checks": 3000, "shards": 4, "timeout": 300},
-         "thorough": {"checks": 200000, "shards": 16, "timeout": 1500}},
+         "quick": {"checks": 4000, "shards": 4, "timeout": 300, "gomaxprocs": [1, 16]},
+         "thorough": {"checks": 200000, "shards": 16, "timeout": 1500, "gomaxprocs": [1, 16, 2, 4]}},
         {"test": "TestVfC15Forced",
          "quick": {"checks": 400, "shards": 2, "timeout": 300},
          "thorough": {"checks": 20000, "shards": 8, "timeout": 1500}},
@@ -27,6 +32,15 @@ PARTS = {
 LEVEL = {}  # default: exploration
 
 RULES = {
+    "C10": "rapid-generated parameter sets accepted by validate() (atomic and skip-atomic with whole groups zeroed, 1-3 topics, "
+           "topic cap, IP whitelist) x histories of up to ~70 scoring events (connect, disconnect, reconnect, graft, prune, "
+           "validate, deliver, reject with each of the 11 reasons, duplicates before/after validation and around the delivery "
+           "window, behaviour penalties, decay ticks, cap-lowering parameter updates, IP assignment/refresh, delivery-record GC, "
+           "application feedback) at generated virtual times; after every event Score(p) of every peer is compared with an "
+           "independent v1.1 reference model (interval where the statement leaves sampling open), counters in [0,cap], no NaN, "
+           "penalties never raise the score, retention rule, extended inspector snapshot. Non-trivial: >= 2 distinct interaction "
+           "labels (cap hit, decay-to-zero, retention, re-graft with history, duplicate before/in/after window, recap, topic cap, "
+           "P6 surplus, P7 excess, activation, sticky penalty, record expiry) occurred. Distinct = distinct case JSON.",
     "C15": "(Seq) every enabled sequence up to the length bound over {push, urgent push, pop, pop with cancelled context, close} "
            "for capacities 1..3 against a reference two-class FIFO, invariant after every step; (Conc) rapid-generated 1-4 "
            "blocking pushers, 1-4 poppers with optional cancellation and an optional closer at generated virtual instants, judged "
@@ -42,6 +56,9 @@ RULES = {
 }
 
 ASSUMPTIONS = {
+    "C10": ["the reference model is a second implementation written from the v1.1 specification; a misreading shared by both goes unseen",
+            "domain: parameters validate() accepts with disabled groups zero or in range, DecayInterval >= 1s, at most one connection per remote address and one IPv6 address per peer, PRUNE only for mesh members, each message ID validated once",
+            "time in mesh and P3 activation may be sampled at decay ticks or evaluated continuously: both are accepted (interval oracle)"],
     "C15": ["synctest's durable-blocking detection (sync.Cond.Wait is durably blocking) defines quiescence",
             "the forced interleaving relies on the verif-tagged schedule point in rpcQueue.Pop; other interleavings are whatever the Go scheduler produces"],
     "*": ["Go 1.25 runtime, testing/synctest virtual clock and pgregory.net/rapid v1.3.0 are trusted",
@@ -52,6 +69,13 @@ ASSUMPTIONS = {
 HOOK_COMMITS = ["407c3ed"]
 
 META = {
+    "C10": {
+        "text": "Model-based property testing: hundreds of thousands of generated (parameter set, event history) pairs compared event by "
+                "event against an independent reference implementation of the v1.1 score; finds any altered term, cap, window, "
+                "activation, decay or retention rule reachable within ~70 events, 4 peers, 3 topics; does not prove absence.",
+        "note": "Trusts the reference model (written from the specification), rapid, synctest's virtual clock; float comparison with relative tolerance 1e-9.",
+        "technique": "model-based property testing (rapid histories vs independent reference score model, interval oracle)",
+    },
     "C15": {
         "text": "Bounded-exhaustive sequential enumeration (complete for the stated bound) plus generated concurrent histories judged "
                 "at quiescence plus one forced interleaving (the cancel-versus-wait window); finds order, capacity, conservation, "
